@@ -34,7 +34,7 @@ class LossCase(object):
     pass
 
 
-def build_loss(c, kind, sel, tp, ts_sel, n, weighted, spread_form):
+def build_loss(c, kind, sel, tp, ts_sel, n, weighted, spread_form, time_kind="sym"):
     """construct the real loss object on the 3-state model; returns LossCase (call inside the stub context in sym mode)"""
     from pygom.loss import ode_loss
     m = models.cached("sir3")
@@ -43,16 +43,22 @@ def build_loss(c, kind, sel, tp, ts_sel, n, weighted, spread_form):
     p = len(sel)
     L.theta_full = [c.real("beta", lo=0.05, hi=0.3), c.real("gamma", lo=0.2, hi=1.0)]
     L.x0 = arr(c, [c.real("x0_%s" % s, lo=1, hi=10) for s in STATES])
-    L.t0 = c.real("t0")
-    prev = L.t0
-    L.t = []
-    for i in range(n):
-        ti = c.real("t%d" % (i + 1))
-        c.assume(ti > prev)
-        if c.mode == "concrete":
-            c.assume(ti - prev < 5)
-        prev = ti
-        L.t.append(ti)
+    if time_kind == "sym":
+        L.t0 = c.real("t0")
+        prev = L.t0
+        L.t = []
+        for i in range(n):
+            ti = c.real("t%d" % (i + 1))
+            c.assume(ti > prev)
+            if c.mode == "concrete":
+                c.assume(ti - prev < 5)
+            prev = ti
+            L.t.append(ti)
+    else:
+        # concrete, TYPED time inputs (the dtype of what the user passes is not a real number: it is enumerated):
+        # integer-typed observation times with a fractional initial time
+        L.t0 = 0.5
+        L.t = [int(i + 1) for i in range(n)]
     count = kind in ("Poisson", "NegBinom")
     L.y = [[(c.intreal("y%d_%d" % (i, j), lo=1, hi=30) if count else c.real("y%d_%d" % (i, j), lo=0.5, hi=30)) for j in range(p)] for i in range(n)]
     L.w = [[(c.real("w%d_%d" % (i, j), lo=0.2, hi=3) if weighted else 1.0) for j in range(p)] for i in range(n)]
@@ -76,7 +82,14 @@ def build_loss(c, kind, sel, tp, ts_sel, n, weighted, spread_form):
         w_arg = mat(c, L.w) if p > 1 else arr(c, [r[0] for r in L.w])
     else:
         w_arg = None
-    t_arg = arr(c, L.t)
+    if time_kind == "sym":
+        t_arg = arr(c, L.t)
+    elif time_kind == "int_array":
+        t_arg = np.arange(1, n + 1)
+    elif time_kind == "int_list":
+        t_arg = list(L.t)
+    else:
+        t_arg = np.array(L.t, dtype=float)
     m.parameters = list(L.theta_full)
     m._stochasticParam = None
     m._intName = None
@@ -143,11 +156,11 @@ def check_binding(c, L, book, integ, x0_expected, label=""):
                     "parameters in force during integration are the supplied values mapped through target_param" + label)
 
 
-def cost_unit(kind, sel, tp, n, weighted=False, spread_form="scalar", entry="cost", ts_sel=None):
+def cost_unit(kind, sel, tp, n, weighted=False, spread_form="scalar", entry="cost", ts_sel=None, time_kind="sym"):
     def h(c):
         if c.mode == "sym":
             with stubs.integrator_stubs(c, eig="fixed") as book, stubs.patched(*loss_patches(c)):
-                L = build_loss(c, kind, sel, tp, ts_sel, n, weighted, spread_form)
+                L = build_loss(c, kind, sel, tp, ts_sel, n, weighted, spread_form, time_kind)
                 x0_used = list(L.x0)
                 if entry == "cost":
                     out = L.obj.cost(L.theta_arg)
@@ -164,7 +177,7 @@ def cost_unit(kind, sel, tp, n, weighted=False, spread_form="scalar", entry="cos
                 check_binding(c, L, book, integ, x0_used)
                 rows = [book.at(fl, ti) for ti in L.t]
         else:
-            L = build_loss(c, kind, sel, tp, ts_sel, n, weighted, spread_form)
+            L = build_loss(c, kind, sel, tp, ts_sel, n, weighted, spread_form, time_kind)
             x0_used = [float(v) for v in L.x0]
             if entry == "cost":
                 out = L.obj.cost(L.theta_arg)
@@ -189,8 +202,9 @@ def cost_unit(kind, sel, tp, n, weighted=False, spread_form="scalar", entry="cos
         else:
             total, _ = ref_cost(c, L, yhat)
             c.prove(near(out, total, c, tol=2e-5), "%s == loss formula on (y[i,j], x_{state_name[j]}(t_i))" % entry)
-    return Unit("C06.%s[%s,states=%s,target=%s,n=%d,w=%s,spread=%s,ts=%s]" % (entry, kind, "+".join(sel), "all" if tp is None else "+".join(tp), n, weighted, spread_form, ts_sel), h,
-                bounds={"model": "S,J,R / beta,gamma", "times": n, "observed_states": list(sel), "target_param": tp, "weights": "symbolic" if weighted else "unit",
+    return Unit("C06.%s[%s,states=%s,target=%s,n=%d,w=%s,spread=%s,ts=%s%s]" % (entry, kind, "+".join(sel), "all" if tp is None else "+".join(tp), n, weighted, spread_form, ts_sel,
+                                                                              "" if time_kind == "sym" else ",times=" + time_kind), h,
+                bounds={"model": "S,J,R / beta,gamma", "times": n, "time_inputs": "symbolic reals" if time_kind == "sym" else "concrete %s 1..n with t0=0.5" % time_kind, "observed_states": list(sel), "target_param": tp, "weights": "symbolic" if weighted else "unit",
                         "spread": spread_form}, program={"loss": kind, "sel": list(sel), "tp": tp}, tol=2e-5, max_paths=400)
 
 
@@ -249,6 +263,15 @@ class C06(Check):
         us.append(cost_unit("Square", ("J", "S"), None, 2, entry="costIV"))
         us.append(cost_unit("Square", ("S",), ("gamma",), 2, entry="costIV", ts_sel=("R", "S")))
         us.append(cost_unit("Normal", ("R", "J"), None, 2, entry="costIV", ts_sel=("J",)))
+        # typed time inputs: integer observation times (array / list) with a fractional initial time
+        us.append(cost_unit("Square", ("J", "S"), None, 2, time_kind="int_array"))
+        us.append(cost_unit("Normal", ("R",), ("gamma",), 3, time_kind="int_list"))
+        us.append(cost_unit("Square", ("S",), None, 2, entry="costIV", time_kind="int_array"))
+        us.append(cost_unit("Square", ("J", "S"), None, 2, entry="residual", time_kind="int_array"))
+        if tier != "quick":
+            for kind in ("Poisson", "Gamma", "NegBinom"):
+                us.append(cost_unit(kind, ("J",), None, 2, time_kind="int_array"))
+            us.append(cost_unit("Square", ("R", "J"), ("beta",), 3, time_kind="float_array"))
         if tier != "quick":
             for kind in ("Normal", "Poisson", "Gamma", "NegBinom"):
                 for sel in [("S",), ("R", "J"), ("R", "S", "J")]:
